@@ -828,7 +828,7 @@ def rule_input(rep, d, fns):
                 n = st[1]
                 t = ir.sx(n)
                 if t[0] != "index":
-                    verdict[id(n)] = (n, False, "element access `%s` without an index proof" % d.text(n)[:40])
+                    verdict[id(n)] = (n, False, "element access `%s` without an index proof" % d.text(n)[:40], True)
                     continue
                 idx = linear.lin(t[2], symmap)
                 facts = []
@@ -851,15 +851,32 @@ def rule_input(rep, d, fns):
                         facts.append(Lin({"S": 1, "v:" + nm: -1}))
                 unsigned_vars = tuple("v:" + v.get("name") for v in ir.walk_expr(fn) if v.get("kind") == "VarDecl" and ir.qtype(v).replace("const ", "") in
                                       ("unsigned long", "unsigned int", "unsigned long long", "unsigned short", "unsigned char"))
-                ok = idx is not None and linear.entails(facts, idx, unsigned_vars) and linear.entails(facts, Lin({"S": 1, "": -1}) - idx, unsigned_vars)
-                prev = verdict.get(id(n), (n, True, ""))
-                verdict[id(n)] = (n, prev[1] and ok, "" if ok else "the index `%s` is not provably inside [0, size()) on a path reaching `%s`: for an empty (or all-padding) input "
-                                                                   "an unsigned `len - 1` wraps and the read is out of bounds" % (ir.show(t[2]), d.text(n)[:40]))
-        for n, ok, det in verdict.values():
+                ok_lo = idx is not None and linear.entails(facts, idx, unsigned_vars)
+                ok_hi = idx is not None and linear.entails(facts, Lin({"S": 1, "": -1}) - idx, unsigned_vars)
+                ok = ok_lo and ok_hi
+                # when is "not provable" a finding?  The lower bound: the index subtracts something and nothing excludes the wrap-around.  The upper
+                # bound: the path compares the index's own variables with size() and the comparison is too weak.  An index bounded through other
+                # quantities (a run length computed by an earlier loop, a multiple of the group size) is beyond these facts: inconclusive.
+                definite = False
+                if idx is not None and not ok_lo and (idx.const() < 0 or any(v_ < 0 for k_, v_ in idx.items() if k_ != "")):
+                    definite = True
+                if idx is not None and ok_lo and not ok_hi:
+                    ivars = {k_ for k_ in idx if k_ not in ("", "S")}
+                    if not ivars or any(("S" in f_) and (set(f_) & ivars) for f_ in facts):
+                        definite = True
+                if idx is None:
+                    definite = False
+                prev = verdict.get(id(n), (n, True, "", False))
+                verdict[id(n)] = (n, prev[1] and ok, prev[2] or ("" if ok else "the index `%s` is not provably inside [0, size()) on a path reaching `%s`: for an empty (or all-padding) input "
+                                                                   "an unsigned `len - 1` wraps and the read is out of bounds" % (ir.show(t[2]), d.text(n)[:40])), prev[3] or (definite and not ok))
+        for n, ok, det, definite in [(v_[0], v_[1], v_[2], v_[3] if len(v_) > 3 else True) for v_ in verdict.values()]:
             if ok:
                 rep.holds("C13.input", fn["name"], "subscript `%s`" % d.text(n)[:40], where=d.where(n))
-            else:
+            elif definite:
                 rep.violates("C13.input", fn["name"], "subscript `%s`" % d.text(n)[:40], where=d.where(n), detail=det)
+            else:
+                rep.inconclusive("C13.input", fn["name"], "subscript `%s`" % d.text(n)[:40], where=d.where(n),
+                                 detail="the index `%s` is bounded through quantities these facts do not relate to size() (a length computed by an earlier loop, a multiple of the group size)" % ir.show(ir.sx(n)[2])[:40])
 
 
 def run(tier):
